@@ -235,7 +235,19 @@ fn nt_term(g: &mut G, out: &mut String, pos: char, generalized: bool, depth: u32
                 }
                 1 => {
                     out.push_str("^^<");
-                    out.push_str(g.iri());
+                    // the datatypes with a special status (implicit, tagged, own syntax) now and then
+                    if g.chance(1, 5) {
+                        out.push_str(g.pick(&[
+                            "http://www.w3.org/1999/02/22-rdf-syntax-ns#langString",
+                            "http://www.w3.org/2001/XMLSchema#string",
+                            "http://www.w3.org/1999/02/22-rdf-syntax-ns#dirLangString",
+                            "http://www.w3.org/1999/02/22-rdf-syntax-ns#XMLLiteral",
+                            "http://www.w3.org/1999/02/22-rdf-syntax-ns#JSON",
+                            "http://www.w3.org/2001/XMLSchema#integer",
+                        ]));
+                    } else {
+                        out.push_str(g.iri());
+                    }
                     out.push('>');
                 }
                 2 if g.wild => out.push_str(g.pick(&["^^", "@", "^^_:b", "^^\"x\"", "@@en", "^<http://x/>"])),
